@@ -1,3 +1,9 @@
 package evid
-import ("testing"; "pgregory.net/rapid"; _ "github.com/hugelgupf/p9/p9")
-func TestProbe(t *testing.T){ rapid.Check(t, func(t *rapid.T){ _ = rapid.Int().Draw(t,"x") }) }
+
+import (
+	_ "github.com/hugelgupf/p9/p9"
+	"pgregory.net/rapid"
+	"testing"
+)
+
+func TestProbe(t *testing.T) { rapid.Check(t, func(t *rapid.T) { _ = rapid.Int().Draw(t, "x") }) }
